@@ -1,6 +1,6 @@
 use crate::{
     CacheControl, Positioned,
-    parser::types::{Field, SelectionSet},
+    parser::types::{Field, Selection, SelectionSet},
     registry::MetaType,
     validation::visitor::{VisitMode, Visitor, VisitorContext},
 };
@@ -21,6 +21,31 @@ impl Visitor<'_> for CacheControlCalculate<'_> {
     ) {
         if let Some(MetaType::Object { cache_control, .. }) = ctx.current_type() {
             *self.cache_control = self.cache_control.merge(cache_control);
+        }
+    }
+
+    fn enter_selection(&mut self, ctx: &mut VisitorContext<'_>, selection: &Positioned<Selection>) {
+        // A field (or `__typename`) selected directly on an interface or union is answered by
+        // whichever object type is returned at run time, which is not known here: be at least as
+        // restrictive as every possible object type and its field of that name.
+        if let Selection::Field(field) = &selection.node
+            && let Some(
+                MetaType::Interface { possible_types, .. } | MetaType::Union { possible_types, .. },
+            ) = ctx.current_type()
+        {
+            for type_name in possible_types {
+                if let Some(MetaType::Object {
+                    cache_control,
+                    fields,
+                    ..
+                }) = ctx.registry.types.get(type_name)
+                {
+                    *self.cache_control = self.cache_control.merge(cache_control);
+                    if let Some(object_field) = fields.get(field.node.name.node.as_str()) {
+                        *self.cache_control = self.cache_control.merge(&object_field.cache_control);
+                    }
+                }
+            }
         }
     }
 
